@@ -3,8 +3,119 @@ import os, sys, json, math
 import vcommon as V
 import c02gen as G
 
+HIST_SCALAR = ["distance", "distanceZ", "distanceXY", "distanceInv", "gyration", "inertia", "angle", "dihedral", "coordNum",
+               "selfCoordNum", "dipoleMagnitude"]
+NEVER_ZERO = ("distance", "distanceInv", "gyration", "inertia", "dipoleMagnitude")
+
+
+def gen_history(r, k):
+    """a variable of 1-3 components and a history of run-time changes (modifycvcs: componentCoeff / componentExp / forceNoPBC;
+    cvcflags; atoms moving); returns the base cases and the list of steps"""
+    vector = (k % 4 == 3)
+    ncomp = r.choice([1, 1, 2, 3])
+    base = gen_until(r, "distanceVec" if vector else r.choice(HIST_SCALAR), generic=(k % 3 == 2), dup=0.1)
+    if base is None:
+        return None
+    cs = [base]
+    for j in range(ncomp - 1):
+        for _ in range(60):
+            comp = "distanceVec" if vector else r.choice(HIST_SCALAR)
+            pr = gen_params(r, comp, False)
+            ng = NGROUPS[comp]
+            if comp in ("distanceZ", "distanceXY") and pr.get("axis") is None:
+                pr["axis"] = [0.0, 0.0, 1.0]
+            groups = G.gen_groups(r, len(base["atoms"]), ng, disjoint=(comp in DISJOINT),
+                                  minsize=2 if comp in ("selfCoordNum", "gyration", "inertia", "dipoleMagnitude") else 1, dup=0.1)
+            c2 = {"comp": comp, "pbc": base["pbc"], "params": pr, "groups": groups, "atoms": base["atoms"], "cell": base["cell"]}
+            c2["params"].pop("tol", None)
+            if well_conditioned(c2):
+                cs.append(c2); break
+        else:
+            return None
+    for c in cs:
+        c["params"].pop("tol", None)
+    # the configuration lists the components in any order; colvar::init_components stores them by component type
+    # (std::map order of the keyword), then by order of appearance: modifycvcs / cvcflags index them in THAT order
+    cfg_order = list(range(len(cs))); r.shuffle(cfg_order)
+    cs.sort(key=lambda c: c["comp"])
+    default = (ncomp == 1 and r.random() < 0.7)
+    state = []
+    for c in cs:
+        if not default and r.random() < 0.6:
+            c["coeff"] = r.choice([-1.0, 2.0, 0.5, 3.0]); 
+            if not vector:
+                c["exp"] = r.choice([1, 2, 3])
+        state.append({"coeff": c.get("coeff", 1.0), "exp": c.get("exp", 1), "active": 1})
+    events = []; steps = []
+    atoms = [list(a) for a in base["atoms"]]
+    cases0 = [dict(c) for c in cs]          # the configuration as first written
+    for e in range(r.randint(3, 5)):
+        kind = r.choice(["modify", "modify", "flags", "move", "nopbc", "badmodify", "period"])
+        line = None; ev = None
+        if kind == "flags" and ncomp >= 2:
+            fl = [r.randint(0, 1) for _ in cs]
+            if not any(fl):
+                fl[r.randrange(ncomp)] = 1
+            line = "F " + " ".join(map(str, fl)); ev = ["F", "%d" % ncomp] + [str(b) for b in fl]
+        elif kind == "nopbc" and base["cell"] is not None:
+            j = r.randrange(ncomp); cs[j] = dict(cs[j]); cs[j]["pbc"] = 1 - cs[j].get("pbc", 1)
+            confs = ["" for _ in cs]; confs[j] = "forceNoPBC " + ("off" if cs[j]["pbc"] else "on")
+            line = "M | " + " ~ ".join(confs)
+        elif kind == "period" and any(c["comp"] == "distanceZ" for c in cs):
+            j = r.choice([j for j, c in enumerate(cs) if c["comp"] == "distanceZ"])
+            cs[j] = dict(cs[j]); cs[j]["params"] = dict(cs[j]["params"])
+            cs[j]["params"]["period"] = r.choice([2.0, 4.0, 8.0]); cs[j]["params"]["wrap"] = r.choice([0.0, 1.0, -0.5])
+            confs = ["" for _ in cs]
+            confs[j] = "period %s;wrapAround %s" % (G.g17(cs[j]["params"]["period"]), G.g17(cs[j]["params"]["wrap"]))
+            line = "M | " + " ~ ".join(confs)
+        elif kind == "move":
+            for _ in range(30):
+                moved = [[a[0], a[1]] + [x + r.gauss(0, 0.3) for x in a[2:5]] for a in atoms]
+                if all(well_conditioned(dict(c, atoms=moved)) for c in cs):
+                    atoms = moved; break
+        elif kind == "badmodify" and ncomp >= 2:
+            line = "M | componentCoeff 5.0"      # one string for several components: rejected, nothing may change
+            ev = ["M", "1", G.hx(5.0), "-"]
+        else:
+            confs = []; toks = ["M", "%d" % ncomp]
+            for j, c in enumerate(cs):
+                parts = []; tc = "-"; tn = "-"
+                if r.random() < 0.7:
+                    co = r.choice([2.0, -1.0, 0.5, 1.0, -0.25, 4.0]); parts.append("componentCoeff " + G.g17(co)); tc = G.hx(co)
+                if not vector and r.random() < 0.5:
+                    ex = r.choice([1, 2, 3, 0] + ([-1, -2] if c["comp"] in NEVER_ZERO else [])); parts.append("componentExp %d" % ex); tn = "%d" % ex
+                confs.append(";".join(parts)); toks += [tc, tn]
+            line = "M | " + " ~ ".join(x.replace(";", "\n") if False else x for x in confs)
+            ev = toks
+        if ev:
+            events.append(ev)
+        steps.append({"line": line, "atoms": [list(a) for a in atoms], "cases": [dict(c) for c in cs], "events": [list(x) for x in events], "kind": kind})
+    # components of one type keep their relative order in the configuration; types are interleaved at random
+    perm = sorted(range(len(cs)), key=lambda j: (cfg_order[j], j))
+    bytype = {}
+    for j in perm:
+        bytype.setdefault(cs[j]["comp"], []).append(j)
+    cfg = []
+    taken = {t: 0 for t in bytype}
+    for j in perm:
+        t = cs[j]["comp"]; cfg.append(cases0[sorted(bytype[t])[taken[t]]]); taken[t] += 1
+    return {"cases0": cases0, "cases_cfg": cfg, "vector": vector, "steps": steps, "default": default}
+
+
+def hist_model_line(h, st):
+    parts = ["COMBH " + ("vector" if h["vector"] else "scalar")]
+    for c0, c in zip(h["cases0"], st["cases"]):
+        cc = dict(c, atoms=st["atoms"]); cc.pop("coeff", None); cc.pop("exp", None)
+        parts.append("; %s %d 1 %s" % (G.hx(c0.get("coeff", 1.0)), c0.get("exp", 1), " ".join(G.model_tokens(cc))))
+    toks = []
+    for ev in st["events"]:
+        toks += ev
+    parts.append("; EV %d %s" % (len(st["events"]), " ".join(toks)))
+    return " ".join(parts)
+
+
 PROPS = ["coq/C02/Properties_C02.v", "coq/C02/Properties_C02_rot.v", "coq/C02/Properties_C02_sym.v", "coq/C02/Properties_C02_fit.v",
-         "coq/C02/Properties_C02_load.v", "coq/C02/Properties_C02_path.v"]
+         "coq/C02/Properties_C02_load.v", "coq/C02/Properties_C02_path.v", "coq/C02/Properties_C02_sup.v"]
 EXTRACT = "coq/C02/Extract_C02.v"
 DRIVER = "props/C02/driver.ml"
 UNIT = {"c02unit": ["props/C02/unit.cpp"]}
@@ -587,6 +698,25 @@ def check(run):
             i = impl.add(G.impl_line([c])); m = mod.add(" ".join(t))
             c["tol"] = 1e-7
             jobs.append(("tie", [c], i, m))
+    # histories of run-time changes of the components (modifycvcs: componentCoeff / componentExp / forceNoPBC; cvcflags)
+    for k in range(14 * scale):
+        h = gen_history(r, k)
+        if h is None:
+            continue
+        i0 = impl.add(G.impl_line(h["cases_cfg"]))
+        for st in h["steps"]:
+            if st["line"]:
+                st["i_ev"] = impl.add(st["line"])
+            st["i"] = impl.add(G.pos_line(st["atoms"]))
+            st["m"] = mod.add(hist_model_line(h, st))
+        # afterwards (a new E line replaces the session): the components evaluated one by one from scratch with the
+        # default coefficient and exponent, for the oracle on the implementation alone
+        for st in h["steps"]:
+            st["fresh"] = []
+            for c in st["cases"]:
+                cc = dict(c, atoms=st["atoms"]); cc.pop("coeff", None); cc.pop("exp", None)
+                st["fresh"].append(impl.add(G.impl_line([cc])))
+        jobs.append(("history", h, i0, None))
     # pair lists of selfCoordNum and of coordNum with group2CenterOnly: built at step 0, used (stale) after the atoms moved
     for k in range(10 * scale):
         comp = "selfCoordNum" if k % 2 == 0 else "coordNum"
@@ -854,6 +984,8 @@ def check(run):
                                   obj["listing"], obj["listing"][0], obj["entries"][obj["listing"][0]], a[:3] if a else iout[obj["i"][1]][:80]), rep)
             if a is not None and b is not None and a != b:
                 run.mismatch("value:load_coords", impl.lines[obj["i"][1]], iout[obj["i"][1]][:200], mout[obj["m"][1]][:200])
+        elif kind == "history":
+            judge_history(run, obj, i, impl.lines, iout, mod.lines, mout)
         elif kind == "plruns":
             c = obj["case"]; f = c["params"]["plfreq"]
             run.count("plruns/" + case_key(c) + "/%s" % obj["starts"], True)
@@ -944,6 +1076,55 @@ def run_resilient(exe, lines, env=None):
         start = k + 1
     out += ["crash"] * (len(lines) - len(out))
     return out[:len(lines)], crashes
+
+
+def judge_history(run, h, i0, ilines, iout, mlines, mout):
+    ncomp = len(h["cases0"])
+    run.count("history/%s/%d/%s" % ("vector" if h["vector"] else "scalar", ncomp, ilines[i0][-60:]), True)
+    run.dist("tie:history:%s:%dcomp%s" % ("vector" if h["vector"] else "scalar", ncomp, ":defaults" if h["default"] else ""))
+    lines = [ilines[i0]]
+    # python-side record of the live parameters, for the oracle on the implementation alone
+    live = [{"coeff": c.get("coeff", 1.0), "exp": c.get("exp", 1), "active": 1} for c in h["cases0"]]
+    nev = 0
+    for st in h["steps"]:
+        if st["line"]:
+            lines.append(st["line"])
+        lines.append(ilines[st["i"]])
+        run.dist("history-event:" + st["kind"])
+        for ev in st["events"][nev:]:
+            if ev[0] == "F":
+                for j in range(ncomp):
+                    live[j]["active"] = int(ev[2 + j])
+            elif int(ev[1]) == ncomp:
+                for j in range(ncomp):
+                    if ev[2 + 2 * j] != "-":
+                        live[j]["coeff"] = float.fromhex(ev[2 + 2 * j])
+                    if ev[3 + 2 * j] != "-":
+                        live[j]["exp"] = int(ev[3 + 2 * j])
+        nev = len(st["events"])
+        a = parse_impl(iout[st["i"]]); b = parse_model(mout[st["m"]])
+        rep = replay_obj("lines", list(lines), {"model_lines": [mlines[st["m"]]], "live_parameters": [dict(x) for x in live]})
+        if a is None:
+            run.violation("value:history:error", "the variable cannot be evaluated after a run-time change (%s): %s" % (st["kind"], iout[st["i"]][:100]), rep)
+            return
+        # oracle: sum over the enabled components of coeff * q^exp with the components evaluated one by one from scratch
+        qs = [parse_impl(iout[f]) for f in st["fresh"]]
+        if all(q is not None for q in qs):
+            try:
+                if h["vector"]:
+                    exp = [sum(l["coeff"] * q[j] for l, q in zip(live, qs) if l["active"]) for j in range(3)]
+                else:
+                    exp = [sum(l["coeff"] * (q[0] if l["exp"] == 1 else q[0] ** l["exp"]) for l, q in zip(live, qs) if l["active"])]
+            except (ZeroDivisionError, OverflowError):
+                exp = None
+            if exp is not None and not vclose(a, exp, 1e-9):
+                run.violation("value:history:live-parameters",
+                              "after %s the variable reports %r, but the sum over its enabled components of coeff * q^exp with the current parameters %s and the component values %s is %r" % (
+                                  st["line"] or st["kind"], a[:3], [(l["coeff"], l["exp"], l["active"]) for l in live], [q[:3] for q in qs], exp[:3]), rep)
+                return
+        if not vclose(a, b, TOL):
+            run.mismatch("value:history", ilines[st["i"]][:120], iout[st["i"]], mout[st["m"]])
+            return
 
 
 def sanitizer_pass(run, lines):
